@@ -3,16 +3,17 @@ import os
 import vlib
 
 
-def run(ctx, cases):
+def run(ctx, cases, sides="wr"):
     h = vlib.cc_harness("kern_dpcm", ["kern_dpcm.c"], kind="asan")
     m = vlib.build_model("dpcm", "XDpcm.v", "driver_dpcm.ml")
     tmpd = os.path.join(vlib.BUILD, "tmp")
     os.makedirs(tmpd, exist_ok=True)
-    vlib.k_tie(ctx, "xi_dpcm_codec", "%s %d %d %s" % (h, ctx.seed, cases, tmpd), m,
+    vlib.k_tie(ctx, "xi_dpcm_codec", "%s %d %d %s %s" % (h, ctx.seed, cases, tmpd, sides), m,
                "the eight integer DPCM kernels of src/xi.c (static, reached by including the file) on random and wrap-boundary inputs with arbitrary incoming "
                "predictors; XI files written through sf_write_short / sf_write_int in random call partitions (lengths 0, 1, around 4096 and 8192, up to 11000: "
                "beyond the staging buffer) whose stored delta codes the model predicts; the same files read back in other partitions, fresh and after "
-               "dpcm_seek (called directly after an optional first read: XI is not seekable through sf_seek) with the predictor the handle held",
+               "dpcm_seek (called directly after an optional first read: XI is not seekable through sf_seek) with the predictor the handle held"
+               + {"wr": "", "w": " [this run: the write side only -- encoder kernels and stored codes]", "r": " [this run: the read side only -- decoder kernels, reads, dpcm_seek]"}[sides],
                key="dpcm")
     ctx.trusted += ["Dpcm.v: the float / double entries of the DPCM codec (f2dles, d2dles, dles2f, ...) are not modelled (they are lossy by definition); "
                     "C narrowing conversions int -> short / signed char are taken modulo 2^16 / 2^8 (gcc, clang)"]
